@@ -95,6 +95,19 @@ class _FieldOfDressed:
         else:
             self.content = None
             setattr(container._xobject, self.name, value)
+            # a dressed object remembered for this field may no longer be
+            # what the field holds (reference nulled or bound to something
+            # else): forget it, the attribute follows the buffer data
+            dressed = container.__dict__.get("_dressed_" + self.name)
+            if dressed is not None and hasattr(dressed, "_xobject"):
+                xnew = getattr(container._xobject, self.name)
+                if (
+                    xnew is None
+                    or not hasattr(xnew, "_offset")
+                    or xnew._buffer is not dressed._xobject._buffer
+                    or xnew._offset != dressed._xobject._offset
+                ):
+                    delattr(container, "_dressed_" + self.name)
 
 
 class JEncoder(json.JSONEncoder):
